@@ -108,6 +108,10 @@ class NewtonDyn:
 
         with self.ctx.sut():
             tw = Simulations.HyperElastic(meshlib.build(self.raw), make_law(self.cfg["newton"]["params"]))
+            if not hasattr(tw, TRIAL_ATTR):
+                # the private trial state was renamed by a refactoring: the internal force cannot be evaluated at a
+                # chosen state any more, the run decides nothing (it never flags)
+                raise Discard("the Newton trial state of a simulation is not reachable (private attribute renamed)")
             setattr(tw, TRIAL_ATTR, np.array(ut, dtype=float))
             tw.Need_Update()
             _, _, _, F = tw.Assembly(tw.problemType)
